@@ -308,6 +308,8 @@ impl super::super::Stat for Stat {
 pub struct VirtualDir<I> {
     iter: I,
     current: Rc<UnixStr>,
+    /// Object that closes the backing file descriptor when dropped
+    backing_fd: Option<Rc<dyn Debug>>,
 }
 
 impl<I> VirtualDir<I> {
@@ -320,7 +322,18 @@ impl<I> VirtualDir<I> {
         VirtualDir {
             iter: iter.into_iter(),
             current: Rc::from(UnixStr::new("")),
+            backing_fd: None,
         }
+    }
+
+    /// Attaches an object to be dropped together with this `VirtualDir`.
+    ///
+    /// The virtual system uses this to close the file descriptor backing the
+    /// directory stream when the stream is dropped.
+    #[must_use]
+    pub(super) fn with_backing_fd(mut self, guard: Rc<dyn Debug>) -> Self {
+        self.backing_fd = Some(guard);
+        self
     }
 }
 
@@ -369,7 +382,6 @@ where
     }
 }
 
-// TODO impl Drop for VirtualDir: close backing file descriptor
 
 #[cfg(test)]
 mod tests {
